@@ -14,6 +14,8 @@ import (
 	"reflect"
 	"sort"
 	"strings"
+	"sync"
+	"time"
 
 	"go.uber.org/zap"
 	"go.uber.org/zap/zapcore"
@@ -30,6 +32,12 @@ import (
 // std-log constructor and print function is used, and the text - empty, blank, padded, multi-line,
 // random.  The message the arguments amount to is computed with fmt / bytes.TrimSpace as oracles and
 // shipped in the case; the observed panic value is shipped in the observation.
+// Sink stacks (c06case.Stacks): between an IO leaf and its sinks sits a tree of zap's WriteSyncer
+// combinators - BufferedWriteSyncer (tiny / default Size, entries longer than Size, already stopped,
+// nested), Lock, AddSync, multi-WriteSyncer - over recording sinks whose Write only stages the bytes
+// and whose Sync commits them.  What every sink has NOT committed of what the IO core has written
+// is observed at the moment control is lost: in the terminal hook, in recover / the deferred
+// function, and - for real child processes - in the sinks' files after the process is gone.
 // Wire format: see coq/theories/C06/Model.v.
 
 type c06method struct{ Recv, Kind, Suffix int }
@@ -140,11 +148,12 @@ func (h c06hook) sx() SX {
 //
 // The zero value of A/V with T == nil is the historical call with c06msg.
 type c06call struct {
-	M c06method
-	L int8
-	A int
-	V int
-	T []byte
+	M    c06method
+	L    int8
+	A    int
+	V    int
+	T    []byte
+	Lens []int // sink-stack cases: the length of every Write the call handed to an IO leaf's sink (from the run)
 }
 
 func (cl c06call) text() string {
@@ -252,7 +261,18 @@ func (cl c06call) message() string {
 }
 
 func (cl c06call) sx() SX {
-	return L(I(cl.M.Recv), I(cl.M.Kind), I(cl.M.Suffix), I(int(cl.L)), Str(cl.message()), L(I(cl.A), I(cl.V), Str(cl.text())))
+	how := L(I(cl.A), I(cl.V), Str(cl.text()))
+	if len(cl.T) > 2048 {
+		how = L(I(cl.A), I(cl.V), Str(fmt.Sprintf("%d bytes", len(cl.T)))) // replay only
+	}
+	if cl.Lens == nil {
+		return L(I(cl.M.Recv), I(cl.M.Kind), I(cl.M.Suffix), I(int(cl.L)), Str(cl.message()), how)
+	}
+	lens := make([]SX, len(cl.Lens))
+	for i, n := range cl.Lens {
+		lens[i] = I(n)
+	}
+	return L(I(cl.M.Recv), I(cl.M.Kind), I(cl.M.Suffix), I(int(cl.L)), Str(cl.message()), how, L(lens...))
 }
 
 type c06case struct {
@@ -264,6 +284,189 @@ type c06case struct {
 	Child   bool
 	Calls   []c06call
 	Variant int // how nil hooks are spelled: 0 no option, 1 explicit nil / OnFatal
+	Stacks  []*c06ws // nil, or for every leaf (pre-order) what sits between the IO core and its recording sinks
+}
+
+// ---------- sink stacks ----------
+// A tree of WriteSyncer combinators over recording sinks.
+type c06ws struct {
+	Kind    int // 0 recording sink, 1 BufferedWriteSyncer, 2 Lock, 3 AddSync, 4 multi-WriteSyncer
+	Size    int
+	Stopped bool // BufferedWriteSyncer: Stop has already run
+	Kids    []*c06ws
+}
+
+func (d *c06ws) sx() SX {
+	switch d.Kind {
+	case 1:
+		return L(I(1), I(d.Size), Bool(d.Stopped), d.Kids[0].sx())
+	case 2, 3:
+		return L(I(d.Kind), d.Kids[0].sx())
+	case 4:
+		ks := make([]SX, len(d.Kids))
+		for i, k := range d.Kids {
+			ks[i] = k.sx()
+		}
+		return L(I(4), L(ks...))
+	}
+	return L(I(0))
+}
+func (d *c06ws) nsinks() int {
+	if d.Kind == 0 {
+		return 1
+	}
+	n := 0
+	for _, k := range d.Kids {
+		n += k.nsinks()
+	}
+	return n
+}
+
+func wsSink() *c06ws                  { return &c06ws{} }
+func wsBuf(size int, k *c06ws) *c06ws { return &c06ws{Kind: 1, Size: size, Kids: []*c06ws{k}} }
+func wsStopped(size int, k *c06ws) *c06ws {
+	return &c06ws{Kind: 1, Size: size, Stopped: true, Kids: []*c06ws{k}}
+}
+func wsLock(k *c06ws) *c06ws     { return &c06ws{Kind: 2, Kids: []*c06ws{k}} }
+func wsAddSync(k *c06ws) *c06ws  { return &c06ws{Kind: 3, Kids: []*c06ws{k}} }
+func wsMulti(ks ...*c06ws) *c06ws { return &c06ws{Kind: 4, Kids: ks} }
+
+// a recording sink: Write only stages the bytes, Sync commits them (a bufio.Writer over a file, a
+// batching network sink).  With a file, committing = writing to the file: what an observer outside
+// the process sees once the process is gone.
+type c06recSink struct {
+	mu        sync.Mutex
+	staged    []byte
+	committed []byte
+	file      *os.File
+}
+
+func (s *c06recSink) Write(p []byte) (int, error) {
+	s.mu.Lock()
+	defer s.mu.Unlock()
+	s.staged = append(s.staged, p...)
+	return len(p), nil
+}
+func (s *c06recSink) Sync() error {
+	s.mu.Lock()
+	defer s.mu.Unlock()
+	if s.file != nil {
+		if _, err := s.file.Write(s.staged); err != nil {
+			return err
+		}
+	} else {
+		s.committed = append(s.committed, s.staged...)
+	}
+	s.staged = s.staged[:0]
+	return nil
+}
+
+// the stack of one leaf as built, and everything the IO core has written to it
+type c06stack struct {
+	id      int
+	top     zapcore.WriteSyncer
+	sinks   []*c06recSink
+	bufs    []*zapcore.BufferedWriteSyncer
+	written []byte
+}
+
+func c06pendingOf(written, committed []byte) int {
+	if len(committed) > len(written) || !bytes.Equal(written[:len(committed)], committed) {
+		return -1 // the sink holds something other than a prefix of what was written
+	}
+	return len(written) - len(committed)
+}
+
+// per sink: the bytes written so far that it has not committed
+func (st *c06stack) pending() SX {
+	out := make([]SX, len(st.sinks))
+	for i, s := range st.sinks {
+		s.mu.Lock()
+		out[i] = I(c06pendingOf(st.written, s.committed))
+		s.mu.Unlock()
+	}
+	return L(out...)
+}
+func (st *c06stack) stop() {
+	for _, b := range st.bufs {
+		b.Stop()
+	}
+}
+
+func (st *c06stack) build(d *c06ws, mkFile func(k int) *os.File) zapcore.WriteSyncer {
+	switch d.Kind {
+	case 1:
+		b := &zapcore.BufferedWriteSyncer{WS: st.build(d.Kids[0], mkFile), Size: d.Size, FlushInterval: time.Hour}
+		if d.Stopped {
+			b.Write(nil) // initialises it without writing anything
+			b.Stop()
+		}
+		st.bufs = append(st.bufs, b)
+		return b
+	case 2:
+		return zapcore.Lock(st.build(d.Kids[0], mkFile))
+	case 3:
+		var w io.Writer = st.build(d.Kids[0], mkFile) // an io.Writer whose dynamic type has a Sync method
+		return zapcore.AddSync(w)
+	case 4:
+		ks := make([]zapcore.WriteSyncer, len(d.Kids))
+		for i, k := range d.Kids {
+			ks[i] = st.build(k, mkFile)
+		}
+		return zapcore.NewMultiWriteSyncer(ks...)
+	}
+	s := &c06recSink{}
+	if mkFile != nil {
+		s.file = mkFile(len(st.sinks))
+	}
+	st.sinks = append(st.sinks, s)
+	return s
+}
+
+// the top of a stack: what the IO core writes to.  Records the Write / Sync events of the leaf
+// (as c05sink does) and the bytes.
+type c06top struct {
+	env   *c05env
+	st    *c06stack
+	lens  *[]int
+	onEv  func(kind int, p []byte)
+}
+
+func (t *c06top) Write(p []byte) (int, error) {
+	if t.env != nil {
+		t.env.events = append(t.env.events, c05ev{0, t.st.id})
+	}
+	if t.onEv != nil {
+		t.onEv(0, p)
+	}
+	t.st.written = append(t.st.written, p...)
+	if t.lens != nil {
+		*t.lens = append(*t.lens, len(p))
+	}
+	return t.st.top.Write(p)
+}
+func (t *c06top) Sync() error {
+	if t.env != nil {
+		t.env.events = append(t.env.events, c05ev{2, t.st.id})
+	}
+	if t.onEv != nil {
+		t.onEv(1, nil)
+	}
+	return t.st.top.Sync()
+}
+
+func (cs *c06case) stackOf(id int) *c06ws {
+	if cs.Stacks == nil {
+		return nil
+	}
+	var ids []int
+	c06leafIDs(fromJ(cs.Tree), &ids)
+	for i, x := range ids {
+		if x == id && i < len(cs.Stacks) {
+			return cs.Stacks[i]
+		}
+	}
+	return nil
 }
 
 // JSON-able mirror of c05node (for the child process)
@@ -321,7 +524,14 @@ func (cs *c06case) input() SX {
 	for i, cl := range cs.Calls {
 		calls[i] = cl.sx()
 	}
-	return L(fromJ(cs.Tree).sx(), L(cells...), Bool(cs.Dev), cs.OnPanic.sx(), cs.OnFatal.sx(), Bool(cs.Child), L(calls...))
+	if cs.Stacks == nil {
+		return L(fromJ(cs.Tree).sx(), L(cells...), Bool(cs.Dev), cs.OnPanic.sx(), cs.OnFatal.sx(), Bool(cs.Child), L(calls...))
+	}
+	stacks := make([]SX, len(cs.Stacks))
+	for i, d := range cs.Stacks {
+		stacks[i] = d.sx()
+	}
+	return L(fromJ(cs.Tree).sx(), L(cells...), Bool(cs.Dev), cs.OnPanic.sx(), cs.OnFatal.sx(), Bool(cs.Child), L(calls...), L(stacks...))
 }
 
 func c06leafIDs(n *c05node, out *[]int) {
@@ -482,13 +692,15 @@ type c06outcome struct {
 	panicked interface{}
 }
 
-// run f on its own goroutine: returned normally / panicked with a value / Goexit
-func c06guarded(f func()) c06outcome {
+// run f on its own goroutine: returned normally / panicked with a value / Goexit.  atEnd runs in
+// the deferred function: the first code of the harness that runs after control was lost
+func c06guarded(f func(), atEnd func()) c06outcome {
 	ch := make(chan c06outcome, 1)
 	go func() {
 		var o c06outcome
 		defer func() {
 			o.panicked = recover()
+			atEnd()
 			ch <- o
 		}()
 		f()
@@ -513,12 +725,49 @@ func c06run(cs *c06case) SX {
 	env := c05newEnv(&c05case{cells: cs.Cells})
 	env.recSync = true
 	customRan := -1
-	lg := c06logger(cs, env, func(k int) { customRan = k })
+	var stacks []*c06stack
+	var lens []int
+	if cs.Stacks != nil {
+		env.mkSink = func(id int) zapcore.WriteSyncer {
+			d := cs.stackOf(id)
+			if d == nil {
+				return &c05sink{env, id}
+			}
+			st := &c06stack{id: id}
+			st.top = st.build(d, nil)
+			stacks = append(stacks, st)
+			return &c06top{env: env, st: st, lens: &lens}
+		}
+		defer func() {
+			for _, st := range stacks {
+				st.stop()
+			}
+		}()
+	}
+	// what the sinks have not committed, taken once per call at the moment control is lost: in the
+	// custom terminal hook if one runs, otherwise in the deferred function of the calling goroutine
+	var pend SX
+	snapshot := func() {
+		if pend != nil {
+			return
+		}
+		ps := make([]SX, len(stacks))
+		for i, st := range stacks {
+			ps[i] = st.pending()
+		}
+		pend = L(ps...)
+	}
+	lg := c06logger(cs, env, func(k int) { customRan = k; snapshot() })
 	outs := make([]SX, len(cs.Calls))
 	for i, cl := range cs.Calls {
 		env.events = env.events[:0]
 		customRan = -1
-		o := c06guarded(func() { c06invoke(lg, cl) })
+		pend = nil
+		lens = lens[:0]
+		o := c06guarded(func() { c06invoke(lg, cl) }, snapshot)
+		if cs.Stacks != nil {
+			cs.Calls[i].Lens = append([]int{}, lens...)
+		}
 		evs := make([]SX, len(env.events))
 		for k, e := range env.events {
 			evs[k] = L(I([]int{0, 2, 1}[e.kind]), I(e.id))
@@ -538,7 +787,7 @@ func c06run(cs *c06case) SX {
 		default:
 			term = L(I(2))
 		}
-		outs[i] = L(L(evs...), term)
+		outs[i] = L(L(evs...), term, pend)
 	}
 	return L(L(outs...), L())
 }
@@ -574,6 +823,22 @@ func c06child(*Ctx) {
 	}
 	env := c05newEnv(&c05case{cells: cs.Cells})
 	env.mkSink = func(id int) zapcore.WriteSyncer {
+		if d := cs.stackOf(id); d != nil {
+			// the recording sinks commit to files: leaf<id> (the first sink), leaf<id>_<k>
+			st := &c06stack{id: id}
+			st.top = st.build(d, func(k int) *os.File {
+				name := fmt.Sprintf("leaf%d", id)
+				if k > 0 {
+					name = fmt.Sprintf("leaf%d_%d", id, k)
+				}
+				f, err := os.Create(filepath.Join(dir, name))
+				if err != nil {
+					os.Exit(3)
+				}
+				return f
+			})
+			return &c06top{st: st, onEv: func(kind int, p []byte) { fmt.Fprintf(evf, "%d %d %x\n", kind, id, p) }}
+		}
 		f, err := os.Create(filepath.Join(dir, fmt.Sprintf("leaf%d", id)))
 		if err != nil {
 			os.Exit(3)
@@ -635,6 +900,8 @@ func c06runChild(c *Ctx, cs *c06case) (SX, error) {
 	var evs []SX
 	var term SX = L()
 	returned := false
+	written := map[int][]byte{} // sink-stack cases: what each leaf's IO core wrote, from the events file
+	lens := []int{}
 	panicValue, havePanicValue := "", false
 	for _, line := range strings.Split(strings.TrimSpace(string(evb)), "\n") {
 		var a, b, k int
@@ -652,6 +919,11 @@ func c06runChild(c *Ctx, cs *c06case) (SX, error) {
 		case line != "":
 			fmt.Sscanf(line, "%d %d", &a, &b)
 			evs = append(evs, L(I(a), I(b)))
+			if f := strings.Fields(line); a == 0 && len(f) == 3 && cs.Stacks != nil {
+				p, _ := hex.DecodeString(f[2])
+				written[b] = append(written[b], p...)
+				lens = append(lens, len(p))
+			}
 		}
 	}
 	switch {
@@ -670,7 +942,28 @@ func c06runChild(c *Ctx, cs *c06case) (SX, error) {
 		b, _ := os.ReadFile(filepath.Join(dir, fmt.Sprintf("leaf%d", id)))
 		fl[i] = I(bytes.Count(b, []byte("\n")))
 	}
-	return L(L(L(L(evs...), term)), L(fl...)), nil
+	// sink-stack cases: what is missing, now that the process is gone, from the file of every
+	// recording sink of what the IO core had written
+	var pend []SX
+	if cs.Stacks != nil {
+		cs.Calls[0].Lens = lens
+		for i, id := range ids {
+			if i >= len(cs.Stacks) {
+				break
+			}
+			ps := make([]SX, cs.Stacks[i].nsinks())
+			for k := range ps {
+				name := fmt.Sprintf("leaf%d", id)
+				if k > 0 {
+					name = fmt.Sprintf("leaf%d_%d", id, k)
+				}
+				b, _ := os.ReadFile(filepath.Join(dir, name))
+				ps[k] = I(c06pendingOf(written[id], b))
+			}
+			pend = append(pend, L(ps...))
+		}
+	}
+	return L(L(L(L(evs...), term, L(pend...))), L(fl...)), nil
 }
 
 // ---------- generation ----------
@@ -700,7 +993,12 @@ func c06worker(c *Ctx) {
 		if plan.items[i].cs.Child {
 			continue
 		}
-		fmt.Fprintf(os.Stdout, "%d\t%s\n", i, Render(c06run(plan.items[i].cs)))
+		obs := Render(c06run(plan.items[i].cs))
+		in := ""
+		if plan.items[i].cs.Stacks != nil {
+			in = Render(plan.items[i].cs.input()) // with the lengths of the Writes observed in the run
+		}
+		fmt.Fprintf(os.Stdout, "%d\t%s\t%s\n", i, obs, in)
 	}
 }
 
@@ -708,8 +1006,8 @@ type rawSX string
 
 func (r rawSX) write(w *strings.Builder) { w.WriteString(string(r)) }
 
-func c06runInProcess(c *Ctx, plan *c06plan) map[int]SX {
-	res := map[int]SX{}
+func c06runInProcess(c *Ctx, plan *c06plan) (map[int]SX, map[int]SX) {
+	res, inputs := map[int]SX{}, map[int]SX{}
 	exe, err := os.Executable()
 	if err != nil {
 		panic(err)
@@ -728,9 +1026,12 @@ func c06runInProcess(c *Ctx, plan *c06plan) map[int]SX {
 		last := from - 1
 		for _, line := range strings.Split(string(out), "\n") {
 			var idx int
-			if tab := strings.IndexByte(line, '\t'); tab > 0 {
-				fmt.Sscanf(line[:tab], "%d", &idx)
-				res[idx] = rawSX(line[tab+1:])
+			if f := strings.Split(line, "\t"); len(f) == 3 {
+				fmt.Sscanf(f[0], "%d", &idx)
+				res[idx] = rawSX(f[1])
+				if f[2] != "" {
+					inputs[idx] = rawSX(f[2])
+				}
 				last = idx
 			}
 		}
@@ -752,10 +1053,10 @@ func c06runInProcess(c *Ctx, plan *c06plan) map[int]SX {
 			break
 		}
 	}
-	return res
+	return res, inputs
 }
 
-func c06emitItem(c *Ctx, it c06item, inproc map[int]SX, idx int) {
+func c06emitItem(c *Ctx, it c06item, inproc, inputs map[int]SX, idx int) {
 	cs, class, kf := it.cs, it.class, it.kf
 	var obs SX
 	if cs.Child {
@@ -789,6 +1090,10 @@ func c06emitItem(c *Ctx, it c06item, inproc map[int]SX, idx int) {
 	meta := map[string]string{"nt": nt, "class": class, "calls": fmt.Sprint(len(cs.Calls))}
 	if kf != "" {
 		meta["kf"] = kf
+	}
+	if in, ok := inputs[idx]; ok {
+		c.Emit(in, obs, meta)
+		return
 	}
 	c.Emit(cs.input(), obs, meta)
 }
@@ -911,11 +1216,136 @@ func c06allCalls(table []c06method, cs *c06case, inProcess bool, rot int, all bo
 	return out
 }
 
+// ---------- sink stacks: generation ----------
+// the directed stacks: every combinator alone, BufferedWriteSyncers with a tiny / small / default
+// Size, already stopped, nested both ways, below and above Lock / AddSync / a multi-WriteSyncer
+func c06directedStacks() []*c06ws {
+	return []*c06ws{
+		wsBuf(128, wsSink()),
+		wsBuf(64, wsBuf(0, wsSink())), // "wrap twice"
+		wsStopped(0, wsSink()),
+		wsBuf(256, wsSink()),
+		wsSink(),
+		wsLock(wsSink()),
+		wsAddSync(wsSink()),
+		wsMulti(wsSink(), wsSink()),
+		wsBuf(1, wsSink()),
+		wsMulti(wsBuf(32, wsSink()), wsLock(wsStopped(16, wsSink())), wsAddSync(wsSink())),
+		wsLock(wsBuf(100, wsAddSync(wsBuf(40, wsLock(wsSink()))))),
+		wsBuf(0, wsSink()),
+		wsStopped(64, wsBuf(64, wsSink())),
+		wsBuf(64, wsStopped(64, wsSink())),
+		wsBuf(48, wsMulti(wsStopped(0, wsSink()), wsSink())),
+		wsBuf(0, wsBuf(0, wsSink())),
+		wsAddSync(wsLock(wsAddSync(wsBuf(200, wsMulti(wsSink()))))),
+		wsBuf(16, wsBuf(32, wsBuf(64, wsSink()))),
+		wsBuf(-3, wsSink()), // bufio replaces a negative size by 4096
+	}
+}
+
+var c06stackSizes = []int{0, 1, 7, 16, 33, 64, 100, 128, 256, 1000, 4096, -5}
+
+func c06randStack(r *RNG, depth int) *c06ws {
+	if depth <= 0 || r.Chance(20) {
+		return wsSink()
+	}
+	switch r.Intn(7) {
+	case 0, 1, 2:
+		d := wsBuf(c06stackSizes[r.Intn(len(c06stackSizes))], c06randStack(r, depth-1))
+		d.Stopped = r.Chance(25)
+		return d
+	case 3:
+		return wsLock(c06randStack(r, depth-1))
+	case 4:
+		return wsAddSync(c06randStack(r, depth-1))
+	}
+	ks := make([]*c06ws, r.Range(1, 3))
+	for i := range ks {
+		ks[i] = c06randStack(r, depth-1)
+	}
+	return wsMulti(ks...)
+}
+
+func (d *c06ws) hasDefaultBuf() bool {
+	if d.Kind == 1 && d.Size == 0 && !d.Stopped {
+		return true
+	}
+	for _, k := range d.Kids {
+		if k.hasDefaultBuf() {
+			return true
+		}
+	}
+	return false
+}
+
+func c06longText(n, salt int) []byte {
+	b := bytes.Repeat([]byte("0123456789abcdef"), n/16+1)[:n]
+	copy(b, fmt.Sprintf("long message %d:", salt))
+	return b
+}
+
+// the terminal (method, level) pairs of the table
+func c06terminalPairs(table []c06method) []c06call {
+	var out []c06call
+	for _, m := range table {
+		lv := m.levels()
+		if lv == nil {
+			lv = []int8{3, 4, 5}
+		}
+		for _, l := range lv {
+			if l >= 3 && l <= 5 {
+				out = append(out, c06call{M: m, L: l})
+			}
+		}
+	}
+	return out
+}
+
+// the calls of an in-process sink-stack case: every method at every terminal level it can reach
+// without ending the process, with an entry shorter and an entry longer than the buffers, between
+// entries below the sync threshold that stay in the buffers
+func c06stackCalls(table []c06method, cs *c06case, rot int) []c06call {
+	lengths := []int{70, 150, 300, 700, 5000, 40}
+	var out []c06call
+	info, errorM := c06method{0, 2, 0}, c06method{0, 4, 0}
+	for k, tc := range c06terminalPairs(table) {
+		if cs.expectExit(tc.L) {
+			continue
+		}
+		switch (k + rot) % 3 {
+		case 0:
+			out = append(out, c06call{M: info, L: 0, T: []byte("starting")})
+		case 1:
+			out = append(out, c06call{M: errorM, L: 2, T: c06longText(lengths[(k+2*rot)%len(lengths)]/2, k)})
+		}
+		long, short := tc, tc
+		long.T = c06longText(lengths[(k+rot)%len(lengths)], k)
+		short.T = []byte(c06msg)
+		if tc.M.Recv == 4 {
+			long.V, short.V = (k+rot)%8, (k+rot+3)%8
+			if long.V>>1 == 3 {
+				long.A = 0
+			}
+		} else {
+			long.A, short.A = (k+rot)%3, (k+rot+1)%3
+		}
+		if long.A == 1 && long.V>>1 != 3 {
+			long.A = 0 // "as few arguments as the method takes" would drop the text
+		}
+		if (k+rot)%2 == 0 {
+			out = append(out, long, short)
+		} else {
+			out = append(out, short, long)
+		}
+	}
+	return out
+}
+
 func c06(c *Ctx) {
 	plan := c06makePlan(c, true)
-	inproc := c06runInProcess(c, plan)
+	inproc, inputs := c06runInProcess(c, plan)
 	for i, it := range plan.items {
-		c06emitItem(c, it, inproc, i)
+		c06emitItem(c, it, inproc, inputs, i)
 	}
 }
 
@@ -1048,6 +1478,84 @@ func c06makePlan(c *Ctx, emitTable bool) *c06plan {
 			}
 		}
 	}
+	// sink stacks, in-process: compositions with leaves x directed stacks (rotating over the leaves) x hook
+	// settings under which Panic / Fatal do not end the process x development
+	dstacks := c06directedStacks()
+	stackShapes := []int{0, 3, 4, 5}
+	panicHooks := []c06hook{{0, 0}, {5, 7}, {2, 0}, {1, 0}, {3, 0}}
+	fatalHooks := []c06hook{{5, 9}, {2, 0}, {3, 0}, {5, 9}, {0, 0}}
+	nstack := 0
+	for di := range dstacks {
+		for _, si := range stackShapes {
+			sh := shapes[si]
+			if c.Thorough || (di+si)%2 == 0 || di < 4 {
+				cs := &c06case{Tree: toJ(sh.t), Cells: sh.cells, Dev: nstack%3 != 2, OnPanic: panicHooks[nstack%5], OnFatal: fatalHooks[(nstack/2)%5], Variant: nstack % 2}
+				_, leaves, _ := sh.t.size()
+				for k := 0; k < leaves; k++ {
+					cs.Stacks = append(cs.Stacks, dstacks[(di+k)%len(dstacks)])
+				}
+				cs.Calls = c06stackCalls(table, cs, nstack)
+				if dstacks[di].hasDefaultBuf() && !cs.expectExit(4) {
+					// an entry longer than the default buffer of 256 kB
+					cs.Calls = append(cs.Calls, c06call{M: c06method{0, 2, 0}, L: 0, T: []byte("starting")},
+						c06call{M: c06method{0, 6, 0}, L: 4, T: c06longText(270000, di)}, c06call{M: c06method{1, 6, 3}, L: 4, T: []byte(c06msg)})
+				}
+				plan.add(cs, "stack", "")
+			}
+			nstack++
+		}
+	}
+	// sink stacks in real child processes with the default actions: the recording sinks commit to files,
+	// read after the process is gone; every directed stack (and seeded random ones) x terminal level x
+	// an entry shorter / longer than the buffers, methods, compositions and hook spellings rotating
+	pairs := c06terminalPairs(table)
+	cstacks := append([]*c06ws{}, dstacks...)
+	nrand := 12
+	if c.Thorough {
+		nrand = 200
+	}
+	sr := NewRNG(c.Seed ^ 0x5eed06d).Fork()
+	for k := 0; k < nrand; k++ {
+		cstacks = append(cstacks, c06randStack(sr, 4))
+	}
+	nchildStack := 0
+	for di, d := range cstacks {
+		for _, l := range []int8{3, 4, 5} {
+			for _, long := range []bool{false, true} {
+				nchildStack++
+				if !c.Thorough && di >= 4 && (nchildStack+di)%2 == 0 {
+					continue
+				}
+				var tc c06call
+				for k := 0; ; k++ { // the next method that can log at l
+					tc = pairs[(nchildStack*7+k)%len(pairs)]
+					if tc.L == l {
+						break
+					}
+				}
+				tc.T = []byte(c06msg)
+				if long {
+					tc.T = c06longText([]int{300, 700, 150, 5000}[nchildStack%4], nchildStack)
+					if d.hasDefaultBuf() && nchildStack%3 == 0 {
+						tc.T = c06longText(270000, nchildStack)
+					}
+				}
+				if tc.M.Recv == 4 {
+					tc.V = nchildStack % 8
+				}
+				sh := shapes[[]int{0, 3}[nchildStack%2]]
+				cs := &c06case{Tree: toJ(sh.t), Cells: sh.cells, Dev: true, Child: true, Variant: nchildStack % 2, Calls: []c06call{tc}}
+				if nchildStack%3 == 1 {
+					cs.OnFatal, cs.OnPanic = c06hook{1, 0}, c06hook{1, 0}
+				}
+				_, leaves, _ := sh.t.size()
+				for k := 0; k < leaves; k++ {
+					cs.Stacks = append(cs.Stacks, cstacks[(di+k)%len(cstacks)])
+				}
+				plan.add(cs, "child-stack", "")
+			}
+		}
+	}
 	// random trees and configurations, in-process
 	n := 600
 	if c.Thorough {
@@ -1068,6 +1576,13 @@ func c06makePlan(c *Ctx, emitTable bool) *c06plan {
 			return h
 		}
 		cs.OnPanic, cs.OnFatal = pick(11), pick(12)
+		// half of them with a random sink stack below every leaf
+		if _, leaves, _ := t.size(); g.r.Bool() {
+			cs.Stacks = []*c06ws{}
+			for i := 0; i < leaves; i++ {
+				cs.Stacks = append(cs.Stacks, c06randStack(g.r, 4))
+			}
+		}
 		all := c06allCalls(table, cs, true, k, true)
 		for _, cl := range all {
 			// the historical message always at the terminal levels and often elsewhere; the
@@ -1081,6 +1596,13 @@ func c06makePlan(c *Ctx, emitTable bool) *c06plan {
 				}
 			default:
 				continue
+			}
+			if cs.Stacks != nil && cl.M.Recv != 3 && g.r.Chance(20) {
+				// entries of all lengths around the buffer sizes
+				cl.T = c06longText(g.r.Range(1, 40)*g.r.Range(1, 30), k)
+				if cl.A == 1 && !(cl.M.Recv == 4 && cl.V>>1 == 3) {
+					cl.A = 0
+				}
 			}
 			cs.Calls = append(cs.Calls, cl)
 		}
